@@ -145,11 +145,8 @@ func (nd *KVNode) getRangeCommand(conn redcon.Conn, cmd redcon.Command) {
 		conn.WriteError(err.Error())
 		return
 	}
-	if val == nil {
-		conn.WriteNull()
-	} else {
-		conn.WriteBulk(val)
-	}
+	// an empty range (also of a missing key) is the empty string, not nil
+	conn.WriteBulk(val)
 }
 
 func (nd *KVNode) strlenCommand(conn redcon.Conn, cmd redcon.Command) {
